@@ -51,7 +51,8 @@ PUZZLES = ["akari", "aquarium", "building", "castle_wall", "compass", "creek", "
            "putteria", "shakashaka", "simpleloop", "slalom", "slitherlink", "star_battle", "sudoku", "view", "yajilin", "yinyang"]
 PLANS["puzzles"] = [("cspuz/puzzle/%s.py" % p, ["C11"], ["solve_" + p]) for p in PUZZLES]
 
-CMP = {ast.Lt: ast.LtE, ast.LtE: ast.Lt, ast.Gt: ast.GtE, ast.GtE: ast.Gt, ast.Eq: ast.NotEq, ast.NotEq: ast.Eq}
+CMP = {ast.Lt: ast.LtE, ast.LtE: ast.Lt, ast.Gt: ast.GtE, ast.GtE: ast.Gt, ast.Eq: ast.NotEq, ast.NotEq: ast.Eq,
+       ast.In: ast.NotIn, ast.NotIn: ast.In, ast.Is: ast.IsNot, ast.IsNot: ast.Is}
 SWAPNAMES = {"height": "width", "width": "height"}
 
 
@@ -69,6 +70,10 @@ def _in_scope(stack, only):
 def sites(tree, only=None):
     """Enumerate mutation sites: each is a closure that mutates a deep copy of the tree in place (addressed by a path)."""
     out = []
+    _parent_of = {}
+    for parent in ast.walk(tree):
+        for child in ast.iter_child_nodes(parent):
+            _parent_of[id(child)] = parent
 
     def visit(node, path, stack):
         if isinstance(node, (ast.FunctionDef, ast.ClassDef)):
@@ -85,6 +90,19 @@ def sites(tree, only=None):
                 for d in (1, -1):
                     out.append(Site("const", ln, "%d -> %d" % (node.value, node.value + d),
                                     (lambda n, d=d: setattr(n, "value", n.value + d), path)))
+            if isinstance(node, ast.Constant) and type(node.value) is str and 1 <= len(node.value) <= 12 and not isinstance(
+                    _parent_of.get(id(node)), ast.Expr):
+                out.append(Site("str", ln, "%r -> %r" % (node.value, node.value + "x"),
+                                (lambda n: setattr(n, "value", n.value + "x"), path)))
+            if isinstance(node, ast.Constant) and type(node.value) is bool:
+                out.append(Site("boolconst", ln, "%r flipped" % node.value, (lambda n: setattr(n, "value", not n.value), path)))
+            if isinstance(node, (ast.List, ast.Tuple)) and isinstance(node.ctx, ast.Load) and 2 <= len(node.elts) <= 8:
+                out.append(Site("eltdrop", ln, "last element of a %d-element display dropped" % len(node.elts),
+                                (lambda n: n.elts.pop(), path)))
+                out.append(Site("eltswap", ln, "first two elements of a display swapped",
+                                (lambda n: n.elts.__setitem__(slice(0, 2), [n.elts[1], n.elts[0]]), path)))
+            if isinstance(node, ast.Return) and node.value is not None and not (isinstance(node.value, ast.Constant) and node.value.value is None):
+                out.append(Site("retnone", ln, "return value replaced by None", (lambda n: setattr(n, "value", ast.Constant(value=None)), path)))
             if isinstance(node, ast.BinOp) and isinstance(node.op, (ast.Add, ast.Sub)):
                 out.append(Site("arith", ln, "%s flipped" % type(node.op).__name__,
                                 (lambda n: setattr(n, "op", ast.Sub() if isinstance(n.op, ast.Add) else ast.Add()), path)))
